@@ -204,6 +204,11 @@ def has_twin(p, u):
 def gen_batch(n, opts, tag=""):
     rng = random.Random(seed() * 7919 + sum(ord(c) * (i + 1) for i, c in enumerate(tag)) % 1000)
     progs = [G.gen_prog(rng, "p%s%d" % (tag, k), opts) for k in range(n)]
+    if opts.get("adversarial") and opts.get("plant"):
+        # renaming first: some planted defects look at the names
+        from . import e2e_names
+        for p in progs:
+            e2e_names.adversarial(rng, p, opts)
     if opts.get("plant"):
         for p in progs:
             for u in p.units:
@@ -214,8 +219,8 @@ def gen_batch(n, opts, tag=""):
                     note = G.plant(rng, u, kind)
                     if note:
                         u.planted = (kind, note)
-    if opts.get("adversarial"):
+    if opts.get("adversarial") and not opts.get("plant"):
         from . import e2e_names
         for p in progs:
-            e2e_names.adversarial(rng, p)
+            e2e_names.adversarial(rng, p, opts)
     return progs
